@@ -88,6 +88,10 @@ if __name__ == "__main__":
         sys.exit(run(sys.argv[2], sys.argv[3] if len(sys.argv) > 3 else "quick", sys.argv[4:]))
 
 
+# properties decided on the same primitive (where a change to one can plausibly be blamed on another)
+FAMILIES = [["C02", "C03", "C04"], ["C05", "C06", "C07"], ["C08", "C09", "C10", "C11"], ["C11", "C12"], ["C11", "C13"], ["C10", "C17"]]
+
+
 def matrix(repo, names, props, tier="quick"):
     """Cross-talk matrix on a scratch copy of the repository (never /repo): for each seeded change
     run the given property checks with FIV_REPO=<repo>; prints one line per (change, property)."""
@@ -101,7 +105,9 @@ def matrix(repo, names, props, tier="quick"):
             continue
         row = {}
         own = json.load(open(os.path.join(d, "meta.json")))["property"]
-        for p in ([own] if props == ["own"] else props):
+        fam = [f for f in FAMILIES if own in f]
+        sib = sorted({q for f in fam for q in f if q != own})
+        for p in ([own] if props == ["own"] else sib if props == ["siblings"] else props):
             pr = subprocess.run(f"./check {p} {tier}", cwd=VERIF, shell=True, executable="/bin/bash", stdout=subprocess.PIPE, stderr=subprocess.STDOUT, text=True, env=env)
             sig = [l.strip() for l in pr.stdout.splitlines() if l.strip().startswith("signature:")]
             row[p] = {"rc": pr.returncode, "sig": sig[0][:160] if sig else ""}
@@ -122,8 +128,8 @@ if __name__ == "__main__" and sys.argv[1] == "matrix":
     else:
         names = sys.argv[3].split(",")
     props = sys.argv[4].split(",") if len(sys.argv) > 4 and sys.argv[4] != "all" else [f"C{i:02d}" for i in range(1, 21)]
-    if len(sys.argv) > 4 and sys.argv[4] == "own":
-        props = ["own"]
+    if len(sys.argv) > 4 and sys.argv[4] in ("own", "siblings"):
+        props = [sys.argv[4]]
     matrix(repo, names, props, sys.argv[5] if len(sys.argv) > 5 else "quick")
 
 
